@@ -64,3 +64,9 @@ def run(repo, res, tier):
     if "new" in repo.modules:
         from .. import hookrules as _hkv3
         _hkv3.rule_v1(repo, res)
+    # a parameter or block name is what the decoder takes for an unquoted string: the token predicate does not refuse any of those
+    # (the other direction -- the predicate accepts more than the decoder -- is C17's)
+    from .. import langrules as _lr3
+    _lr3.rule_g2(repo, res, _lr3.analyse(repo), directions=("decoder-only",))
+    from .. import apirules as _ap3
+    _ap3.rule_re_flag_pos(repo, res)
